@@ -193,6 +193,23 @@ CATALOGUE = {
     "optional-field-nil": ["class O {", "\tf: int?", "\tconstructor(self) {", "\t\tself.f = nil", "\t}", "}", "oo = O()", "print typeof oo.f", "print oo.f"],
 }
 
+# from-loops over every combination of numeric kinds: start x end x step (absent, or of a kind) x counter (fresh, or an existing variable of a kind),
+# observed in the first iteration (before any step was added), after a break in the first iteration and after a loop whose range is empty
+_FK = {"int": ("0", "2", "1", "7"), "bigint": ("B0", "B2", "B1", "B7"), "float": ("0.0", "2.0", "0.5", "9.5"), "byte": ("0b0", "0b10", "0b1", "0b111")}
+for _sk in _FK:
+    for _ek in _FK:
+        for _tk in [None] + list(_FK):
+            for _ck in [None] + list(_FK):
+                _hdr = f"from {_FK[_sk][0]} to {_FK[_ek][1]}" + (f" step {_FK[_tk][2]}" if _tk else "") + ", lc"
+                _emp = f"from {_FK[_sk][1]} to {_FK[_ek][0]}" + (f" step {_FK[_tk][2]}" if _tk else "") + ", lc"
+                _decl = [f"lc: {_ck} = {_FK[_ck][3]}"] if _ck else []
+                _after = ["print typeof lc", "print lc"] if _ck else []
+                _nm = f"from-kinds-{_sk}-{_ek}-{_tk or 'nostep'}-{_ck or 'fresh'}"
+                CATALOGUE[_nm + "-first"] = _decl + [_hdr + " {", "\tprint typeof lc", "\tprint lc", "}"] + _after
+                CATALOGUE[_nm + "-break"] = _decl + [_hdr + " {", "\tbreak", "}"] + _after if _ck else _decl + [_hdr + " {", "\tprint typeof lc", "\tprint lc", "\tbreak", "}"]
+                if _ck:
+                    CATALOGUE[_nm + "-empty"] = _decl + [_emp + " {", "\tprint 1", "}"] + _after
+
 # fixed-shape lists x every list method: the per-position element types are a promise of the compiler, so a method either is refused
 # on such a list or leaves every position holding a value of its declared kind (asymmetric shapes, so that any permutation shows)
 _FX_SHAPES = {"isf": '[1, "a", 2.5]', "is": '[1, "a"]', "si": '["a", 1]', "ibs": '[1, true, "z"]'}
